@@ -117,6 +117,12 @@ static void fill_pattern(uint8_t *dst, size_t n, int pat) {
     for (size_t i = 0; i < n; i++) dst[i] = pat == 0 ? (uint8_t)('a' + i % 26) : pat == 1 ? (uint8_t)(0x80 + i) : (uint8_t)(i == 0 ? 0 : 0xC3);
 }
 
+static void set_pair(vf_iface *fi, int fp, int val) {
+    for (int i = 0; i < 6; i++) { fi->mac[i] = (uint8_t)(0x11 * (i + 1)); fi->bssid[i] = (uint8_t)(0x13 * (i + 1)); }
+    for (int i = 0; i < 16; i++) fi->ipv6[i] = (uint8_t)(0x0d * (i + 1) + 1);
+    uint8_t *p = fp / 2 == 0 ? fi->mac : fp / 2 == 1 ? fi->bssid : fi->ipv6; int n = fp / 2 == 2 ? 16 : 6, at = (fp & 1) ? n - 2 : 0;
+    p[at] = (uint8_t)(val >> 8); p[at + 1] = (uint8_t)val;
+}
 static void sweep_grid(void) {
     vf_iface *fi = &W.iface[IFX];
     cur_sweep = "flags";
@@ -148,6 +154,12 @@ static void sweep_grid(void) {
         memset(fi->mac, bg ? 0xff : 0x00, 6); memset(fi->bssid, bg ? 0xff : 0x00, 6); memset(fi->ipv6, bg ? 0xff : 0x00, 16);
         if (pos < 6) fi->mac[pos] = (uint8_t)val; else if (pos < 12) fi->bssid[pos - 6] = (uint8_t)val; else fi->ipv6[pos - 12] = (uint8_t)val;
         cex_here(7, pos * 2 + bg, val); one();
+    }
+    cur_sweep = "byte-pairs";      /* every 16-bit value in the leading and in the trailing byte pair of each address, over a background without zero bytes (address classes - link-local, multicast, locally administered - are decided by leading bits) */
+    for (int w = 0; w < 2; w++) for (int fp = 0; fp < 6; fp++) for (int val = 0; val < 65536; val++) {
+        restore_base(w);
+        set_pair(fi, fp, val);
+        cex_here(11, fp, val); one();
     }
     cur_sweep = "u32-grid";
     static const uint8_t gb[5] = {0x00, 0x01, 0x7F, 0x80, 0xFF};
@@ -197,6 +209,7 @@ static void ps_apply(int ev) {
         case 6: { uint32_t m = 0; for (int i = 0; i < 12; i++) if (a & (1 << i)) m |= bits[i]; fi->fail = m & ~VF_G_HOSTNAME; W.host.fail = m & VF_G_HOSTNAME; break; }
         case 7: { int pos = a / 2, bg = a & 1; memset(fi->mac, bg ? 0xff : 0, 6); memset(fi->bssid, bg ? 0xff : 0, 6); memset(fi->ipv6, bg ? 0xff : 0, 16);
                   if (pos < 6) fi->mac[pos] = (uint8_t)b; else if (pos < 12) fi->bssid[pos - 6] = (uint8_t)b; else fi->ipv6[pos - 12] = (uint8_t)b; break; }
+        case 11: set_pair(fi, a, b); break;
         case 8: fi->iftype = v32; break; case 9: fi->ipv4_be = v32; break; case 10: fi->speed = v32; break;
     }
     cur_sweep = "replay";
@@ -220,7 +233,7 @@ int main(int argc, char **argv) {
         IFX = 1; sweep_grid(); IFX = 0;      /* the same sweeps on the responder's second interface (the first one has different attributes) */
         vf_sample("characteristics flags: all 65536 values (wired and Wi-Fi); Wi-Fi rate: all 65536; RSSI: all 256; mode: all 256");
         vf_sample("machine name / SSID: every length 0..40 x 3 byte patterns x 2 port return conventions; 4096 subsets of failing getters x wired/Wi-Fi");
-        vf_sample("MAC/BSSID/IPv6: every byte position x 256 values x 2 backgrounds; ifType/IPv4/speed: {00,01,7F,80,FF}^4 grid + walking bits");
+        vf_sample("MAC/BSSID/IPv6: every byte position x 256 values x 2 backgrounds; ifType/IPv4/speed: {00,01,7F,80,FF}^4 grid + walking bits; leading and trailing byte pair of MAC/BSSID/IPv6: all 65536 values");
     }
     R.evaluations = evals; R.exhaustive = 1; R.wall_s = vf_now_s() - t0;
     vf_write_results();
